@@ -477,7 +477,7 @@ func (n *PathIndexNode) Get(src, dst reflect.Value) error {
 	}
 	switch src.Type().Kind() {
 	case reflect.Array, reflect.Slice:
-		if src.Len() > n.selector {
+		if 0 <= n.selector && n.selector < src.Len() {
 			if n.child != nil {
 				return n.child.Get(src.Index(n.selector), dst)
 			}
